@@ -387,4 +387,45 @@ def r3_5(ctx: Ctx) -> RuleResult:
     return r4_1(ctx, "R3.5")
 
 
-RULES = [r3_1, r3_2, r3_3, r3_4, r3_5]
+def r3_6(ctx: Ctx) -> RuleResult:
+    """`JSONPointer(str(p))` is p again only if parsing with the *default* options neither rewrites a token nor
+    refuses one that `str()` can print.  Two constructs decide that: the default of `unicode_escape` (decoding
+    `\\uXXXX` sequences that are part of a member name) and what `_index` does with a canonical integer token outside
+    the index limits (refusing it makes a member with such a name unaddressable by its own printed pointer)."""
+    from .common import path_conditions
+
+    rr = RuleResult("R3.6", "the printed pointer parses back with the default options", floor=2)
+    cls = ctx.repo.require_class("jsonpath.pointer.JSONPointer")
+    init = cls.methods.get("__init__")
+    idx = cls.methods.get("_index")
+    if init is None or idx is None:
+        raise AnalysisError("R3.6: JSONPointer.__init__ / _index not found")
+    a = init.node.args
+    names = [x.arg for x in a.kwonlyargs]
+    dflt = a.kw_defaults[names.index("unicode_escape")] if "unicode_escape" in names else None
+    if dflt is None:
+        raise AnalysisError("R3.6: JSONPointer.__init__ has no keyword `unicode_escape`")
+    escapes_backslash = any(
+        isinstance(c, ast.Call) and callee_name(c) == "replace" and c.args and isinstance(c.args[0], ast.Constant) and c.args[0].value == "\\"
+        for m in (cls.methods.get("_encode"), cls.methods.get("__str__")) if m is not None for c in ast.walk(m.node))
+    if isinstance(dflt, ast.Constant) and dflt.value is True and not escapes_backslash:
+        rr.bad(init, init.node, "JSONPointer(...) decodes \\uXXXX sequences by default, and the printed pointer does not protect a "
+               "backslash: the pointer of a member named `\\u0041` prints as `/\\u0041`, which parses to the member `A`",
+               construct="JSONPointer.__init__: unicode_escape defaults to True")
+    else:
+        rr.ok(init.loc(), "parsing with the default options decodes nothing that str() does not encode")
+    refused = []
+    for r in [n for n in ast.walk(idx.node) if isinstance(n, ast.Raise)]:
+        conds = path_conditions(idx.node, r)
+        if any("_int_index" in ast.unparse(t) for t, _b in conds):
+            refused.append(r)
+    if refused:
+        rr.bad(idx, refused[0], "a canonical integer token outside min_int_index..max_int_index is refused when the pointer text is "
+               "parsed: a member named `9007199254740993` has a pointer whose printed form raises JSONPointerIndexError",
+               construct="JSONPointer._index: out-of-range integer tokens raise at parse time")
+    else:
+        rr.ok(idx.loc(), "integer tokens outside the index limits stay tokens")
+    return rr
+
+
+RULES = [r3_1, r3_2, r3_3, r3_4, r3_5, r3_6]
